@@ -152,7 +152,7 @@ def run(ctx):
             texts = texts[:k] + [rng.choice([")", "#q", "(if)", "(lambda)", "(display 1 . )", "(let ((x)) x)", "(define)", "12ab"])]
         if any(len(t) > 400 for t in texts):
             continue
-        uses_lib = rng.random() < 0.2
+        uses_lib = rng.random() < 0.3
         if uses_lib:
             texts = ["(import (scheme base) (scheme write) (helper))"] + texts + ["(display (helper-value))"]
         else:
@@ -162,7 +162,9 @@ def run(ctx):
     for i, (texts, uses_lib) in enumerate(progs):
         d = os.path.join(base, "r%d" % i); os.makedirs(d, exist_ok=True)
         if uses_lib:
-            open(os.path.join(d, "helper.sld"), "w").write("(define-library (helper) (import (scheme base)) (export helper-value) (begin (define (helper-value) 'from-helper)))\n")
+            # (every third library runs a failing expression in its body, after its definitions: importing it fails)
+            tail = " (vector-ref (vector 1 2) 7)" if i % 3 == 0 else ""
+            open(os.path.join(d, "helper.sld"), "w").write("(define-library (helper) (import (scheme base)) (export helper-value) (begin (define (helper-value) 'from-helper)%s))\n" % tail)
         steps = [{"op": "new", "i": 0, "stdlib": False, "natives": False}, {"op": "progdir", "i": 0, "path": d}]
         steps += [{"op": "evalcap", "i": 0, "text": t} for t in texts]
         jobs.append({"id": i, "kind": "session", "steps": steps})
@@ -179,6 +181,11 @@ def run(ctx):
             forms.append({"k": o["k"], "shown": o.get("displayed", []), "msg": cps(o.get("msg", "")), "located": bool(o.get("loc"))})
             if o["k"] == "error":
                 break
+        if uses_lib and i % 3 == 0 and forms and forms[0]["k"] != "error":
+            # the reference itself is the code under test: what it must say about THIS form is known by construction
+            ctx.violation([{"kind": "input", "value": " ".join(texts) + " | helper.sld with a failing body"}],
+                          "program %s: the library (helper) runs (vector-ref (vector 1 2) 7) in its body, yet importing it succeeded (%s)" % (texts[0], json.dumps(rs[0])[:200]),
+                          {"stage": "random", "text": " ".join(texts), "variant": "faulty-library"})
         d = os.path.join(base, "r%d" % i)
         for (e, f) in (rng.sample(VARIANTS, 2) if tier == "quick" else VARIANTS):
             path = os.path.join(d, "main-%s-%s.scm" % ("crlf" if e == "\r\n" else "lf", "nl" if f else "nonl"))
